@@ -480,4 +480,86 @@ theorem reencode_ok (fs : List Schema) (ic : Bool) (w : Bytes) (vs : List Value)
   obtain ⟨b, h1, h2⟩ := encFields_total w.length fs vs hw hr hfit hb (by omega)
   exact ⟨b, h1, by omega⟩
 
+/-! ### with `fixed_len` fields: the only ways re-encoding a legal assignment can fail -/
+
+/-- a result that is a value, `ValueError` (an integer too big for its `fixed_len`) or `struct.error` (a Type or
+    Length that does not fit 64 bits) -/
+def ReErr {α} (x : Except PyErr α) : Prop := ∀ e, x = .error e → e = .valueError ∨ e = .structError
+
+theorem ReErr.ok {α} (a : α) : ReErr (Except.ok a : Except PyErr α) := by intro e h; cases h
+
+theorem ReErr.bind {α β} {x : Except PyErr α} {f : α → Except PyErr β}
+    (hx : ReErr x) (hf : ∀ a, x = .ok a → ReErr (f a)) : ReErr (x >>= f) := by
+  cases x with
+  | error e => intro e' h; cases h; exact hx e rfl
+  | ok a => exact hf a rfl
+
+theorem tlvE_reErr (t : Nat) (b : Bytes) : ReErr (tlvE t b) := by
+  unfold tlvE; split
+  · exact ReErr.ok _
+  · intro e h; cases h; exact .inr rfl
+
+mutual
+theorem enc_reErr : ∀ (s : Schema) (v : Value), fits s v = true → ReErr (enc s v)
+  | s, .none, _ => by cases s <;> simp only [enc] <;> exact ReErr.ok _
+  | s, .uint v, hfit => by
+    cases s with
+    | uint t fl =>
+      simp only [enc]; split
+      · intro e h; cases h; exact .inl rfl
+      · exact tlvE_reErr _ _
+    | _ => simp [fits] at hfit
+  | s, .bool, hfit => by
+    cases s with
+    | bool t => simp only [enc]; exact tlvE_reErr _ _
+    | _ => simp [fits] at hfit
+  | s, .bytes x, hfit => by
+    cases s with
+    | bytes t isStr => simp only [enc]; exact tlvE_reErr _ _
+    | _ => simp [fits] at hfit
+  | s, .name cs, hfit => by
+    cases s with
+    | name t => simp only [enc]; exact tlvE_reErr _ _
+    | _ => simp [fits] at hfit
+  | s, .model vs, hfit => by
+    cases s with
+    | model t fs ic =>
+      simp only [fits] at hfit
+      simp only [enc]
+      exact ReErr.bind (encFields_reErr fs vs hfit) (fun _ _ => tlvE_reErr _ _)
+    | _ => simp [fits] at hfit
+  | s, .list vs, hfit => by
+    cases s with
+    | repeated e => simp only [fits] at hfit; simp only [enc]; exact encList_reErr e vs hfit
+    | _ => simp [fits] at hfit
+  | s, .map es, hfit => by
+    cases s with
+    | map k v =>
+      simp only [fits, Bool.and_eq_true] at hfit; simp only [enc]; exact encMap_reErr k v es hfit.1
+    | _ => simp [fits] at hfit
+theorem encFields_reErr : ∀ (fs : List Schema) (vs : List Value), fitsFs fs vs = true → ReErr (encFields fs vs)
+  | [], _, _ => by simp only [encFields]; exact ReErr.ok _
+  | _ :: _, [], _ => by simp only [encFields]; exact ReErr.ok _
+  | s :: ss, v :: vs, hfit => by
+    simp only [fitsFs, Bool.and_eq_true] at hfit
+    simp only [encFields]
+    exact ReErr.bind (enc_reErr s v hfit.1) (fun _ _ =>
+      ReErr.bind (encFields_reErr ss vs hfit.2) (fun _ _ => ReErr.ok _))
+theorem encList_reErr : ∀ (e : Schema) (vs : List Value), fitsList e vs = true → ReErr (encList e vs)
+  | _, [], _ => by simp only [encList]; exact ReErr.ok _
+  | e, v :: vs, hfit => by
+    simp only [fitsList, Bool.and_eq_true] at hfit
+    simp only [encList]
+    exact ReErr.bind (enc_reErr e v hfit.1.2) (fun _ _ =>
+      ReErr.bind (encList_reErr e vs hfit.2) (fun _ _ => ReErr.ok _))
+theorem encMap_reErr : ∀ (k v : Schema) (es : List (Value × Value)), fitsMap k v es = true → ReErr (encMap k v es)
+  | _, _, [], _ => by simp only [encMap]; exact ReErr.ok _
+  | k, v, (x, y) :: r, hfit => by
+    simp only [fitsMap, Bool.and_eq_true] at hfit
+    simp only [encMap]
+    exact ReErr.bind (enc_reErr k x hfit.1.1.2) (fun _ _ =>
+      ReErr.bind (enc_reErr v y hfit.1.2) (fun _ _ =>
+        ReErr.bind (encMap_reErr k v r hfit.2) (fun _ _ => ReErr.ok _)))
+end
+
 end Ndn.Codec
